@@ -318,6 +318,13 @@ def part_cli(chk: Check, reqs, codegen_ref, rng):
     thorough = chk.tier == "thorough"
     picked = list(reqs) if thorough else rng.sample(reqs, min(len(reqs), 90))
     extra = []
+    # kinds in an order other than the alphabetical one of KIND_SUBSETS: the CLI must keep the order of its -t flags
+    for r in picked:
+        if len(r["kinds"]) >= 2 and (thorough or rng.random() < 0.5):
+            ks = list(r["kinds"])
+            while ks == sorted(ks):
+                rng.shuffle(ks)
+            extra.append({**r, "rid": 300000 + r["rid"], "kinds": ks})
     for r in picked[:12]:
         # defaults: no -t -> [compute]; no -l -> c
         extra.append({**r, "rid": 100000 + r["rid"], "kinds": ["compute"], "default_kinds": True})
@@ -652,7 +659,7 @@ def run(chk: Check):
     # tie to the source by regeneration: the listed definitions are re-translated from /repo by py2coq on
     # every run and PROVED equal to the hand models (coq/props/TIE.v), plus a translator self-check
     from props._tie import run_tie
-    run_tie(chk, ['desugar', 'variables', 'index_participants'])
+    run_tie(chk, ['desugar', 'variables', 'index_participants', 'problem'])
 
 
 def replay(chk: Check, payload, quiet=False):
